@@ -261,6 +261,7 @@ Definition e_argv (a : sx) : sx :=
   | SL ws =>
       match get_list get_s ws with
       | Some argv =>
+          if usage_error argv then SL [SS (s2l "ok"); SL [SS (s2l "exit2")]] else   (* argparse error: SystemExit(2) *)
           sx_res (fun r => match r with
                            | PAUsage => SL [SS (s2l "usage")]
                            | PABadMatcher => SL [SS (s2l "bad-matcher")]
